@@ -132,14 +132,16 @@ Definition enabled (c : cst) (t : nat) : bool :=
     end
   end.
 
+Fixpoint nsum (l : list nat) : nat := match l with [] => 0 | x :: l' => x + nsum l' end.
+
 (* number of steps an action / a thread / the system still needs (serialised code) *)
 Definition act_cost (a : act) : nat :=
   match a with AIns _ => 1 | AMark fs _ => 2 + 2 * length fs end.
 Definition loc_cost (l : lst) : nat :=
   match l with LIdle => 0 | LMark fs _ => 1 + 2 * length fs | LCas fs _ _ _ _ => 2 + 2 * length fs end.
-Definition thr_work (th : thr) : nat := loc_cost (t_loc th) + sum_list (map act_cost (t_todo th)).
-Definition work (c : cst) : nat := sum_list (map thr_work (c_thr c)).
-Definition upd_cost (u : update) : nat := sum_list (map act_cost (acts_of_update u)).
+Definition thr_work (th : thr) : nat := loc_cost (t_loc th) + nsum (map act_cost (t_todo th)).
+Definition work (c : cst) : nat := nsum (map thr_work (c_thr c)).
+Definition upd_cost (u : update) : nat := nsum (map act_cost (acts_of_update u)).
 
 (* n consecutive steps of one thread (how the correspondence engine executes
    one whole Update on behalf of a thread) *)
@@ -171,3 +173,18 @@ Definition withdraws (p : list update) (m : N) (fo : option N) : Prop :=
 Definition livelock_progs : list (list update) := [[UWithdraw 1%N None]; [UWithdraw 2%N None]].
 (* t0 calls, loads; t1 calls, loads the same object; t0's CAS succeeds; t1's CAS fails *)
 Definition livelock_prefix : list nat := [0; 0; 1; 1; 0; 1]%nat.
+
+(* ---- a concrete non-trivial scenario (Props_C09.C09_example) ---- *)
+Definition ex_key (f p m : N) : rkey := (f, p, m).
+Definition example_progs : list (list update) :=
+  [ [UBulk [MkPay (ex_key 0 7 1) true 5; MkPay (ex_key 0 8 1) true 5]; UBulk [MkPay (ex_key 0 7 1) true 6];
+     UBulk [MkPay (ex_key 0 8 1) false 0]]
+  ; [UBulk [MkPay (ex_key 0 7 2) true 3; MkPay (ex_key 1 7 2) true 3]; UWithdraw 2 (Some 0)]
+  ; [UBulk [MkPay (ex_key 0 7 3) true 4]; UWithdrawBulk [3; 4]; UBulk [MkPay (ex_key 2 7 4) true 9]] ]%N.
+Definition example_sched : list nat := concat (repeat [2; 0; 1; 1; 2; 0] 30).
+(* decidable form of disjoint_ids *)
+Definition disjoint_idsb (progs : list (list update)) : bool :=
+  forallb (fun i => forallb (fun j => Nat.eqb i j ||
+      forallb (fun m => negb (existsb (N.eqb m) (prog_muis (default [] (progs !! j)))))
+              (prog_muis (default [] (progs !! i))))
+    (seq 0 (length progs))) (seq 0 (length progs)).
